@@ -6,7 +6,8 @@ from jv import real
 LEVEL = "fault_enumeration"
 RULE = ("Finite grid, fully enumerated in both tiers: reference position (instruction item, operand item, $deref field value, "
         "dict key with a times body, dict key with an operand-list body, item inside another macro's body, operand inside "
-        "another macro's body, item inside an $or group) x {referenced macro defined, undefined, defined under a name without "
+        "another macro's body, item inside an $or group, value of an argument of a parameterised macro call - all or only one of two formals bound, "
+        "arguments beside or indented under the call key) x {referenced macro defined, undefined, defined under a name without "
         "'@'} x {definition listed before / after the macro that uses it} x {definitions in the rule file / in an extra macro "
         "file} x {0, 1, 2 unrelated other macros}; tiers differ in the number of randomised body/name variants per grid cell. "
         "Oracle: all references defined and bodies only using later-listed macros -> compiles and the regex contains no '@'; "
@@ -19,7 +20,8 @@ ANCHOR_HINTS = ["macro_expander", "yaml2regex"]
 REQUIRED_EVENTS = ["cells_judged", "history_steps_judged"]
 SHARDS = {"quick": 8, "thorough": 16}
 
-POSITIONS = ["item", "operand", "deref_value", "key_times", "key_operands", "body_item", "body_operand", "or_item"]
+POSITIONS = ["item", "operand", "deref_value", "key_times", "key_operands", "body_item", "body_operand", "or_item",
+             "arg_sibling", "arg_nested", "arg_partial_sibling", "arg_partial_nested"]
 DEFINED = ["defined", "undefined", "no_at_name"]
 ORDER = ["user_first", "user_last"]
 WHERE = ["file", "extra"]
@@ -51,6 +53,16 @@ def build(rng, pos, defined, order, where, nother):
         pattern = ["call", {ref: {"times": 2}}]
     elif pos == "key_operands":
         pattern = [{ref: ["%rax", "%rbx"]}]
+    elif pos.startswith("arg_"):
+        # the reference is the VALUE of an argument of a parameterised macro call (all formals bound, or only one of two;
+        # arguments written beside the call key or indented under it)
+        body_str = rng.choice(["%rax", "rax", "0x10", "%r8"])
+        target["pattern"] = body_str
+        f1, f2 = rng.choice([("dst", "imm"), ("macro-arg1", "macro-arg2"), ("reg", "val")])
+        user = {"name": "@user", "args": [f1, f2], "pattern": [{"mov": [f2, f1]}]}
+        args = {f1: ref} if "partial" in pos else ({f1: ref, f2: "0x1"} if rng.random() < 0.5 else {f2: ref, f1: "%rbx"})
+        call = {"@user": dict(args)} if pos.endswith("nested") else {"@user": None, **args}
+        pattern = ["call", call]
     elif pos == "body_item":
         user = {"name": "@user", "pattern": [{"$or": ["nop", ref]}]}
         pattern = ["call", "@user"]
